@@ -1,14 +1,503 @@
-"""C17 / C18: the array and parameter logic of the I/O commands under contract (the library calls are assumed)."""
+"""C17 / C18: the array and parameter logic of the I/O commands under contract (the library calls are assumed).
+
+CSV EEMSRead.execute is verified against a contract taken from C17's statement. The file is abstracted by uninterpreted
+functions (what `csv.reader(f.readlines())` delivers — an assumed contract of the csv module):
+    HASHDR            the file has a first row
+    HLEN, HEADER(i)   the header row
+    NROWS             number of rows after the header; ROWLEN(k), CELL(k, i) their cells ([] for a blank line)
+Ghost functions of the specification:
+    CNT(j)            number of non-blank rows among the first j
+    SRC(m)            index of the m-th non-blank row       (axiom: NONBLANK(k) => SRC(CNT(k)) = k)
+    POS(c)            position of a cell of a 1-D array
+"""
+import ast
+
+import z3
+
+from . import smt
+from . import spec as S
+from .cmdspec import CommandSpec, verify_execute
+from .engine import Engine
+from .smt import Val, INT, FLT, Shape, Cell
+from .ma import RANK
+from .values import Sym, Ref, Obj, PyList, SeqV, ClassV, BuiltinV, Raised, Unsupported, ArrState, TupleV, is_num, num_term
 
 EXPLANATION = {
-    "csv": ("Proved: the error classes of the CSV library can be constructed and printed; validate_array_shapes (called by EEMSWrite) meets its contract. "
-            "Assumed: csv, open, float/repr, numpy. Bounded (B-CSV): reads of generated tables (row order, blank lines, element type, missing value, other columns "
-            "irrelevant, file line of a bad cell) and bit-identical write->read round trips on real files."),
+    "csv": ("Proved on the real body of the CSV EEMSRead.execute, with the csv module abstracted to the rows it delivers: an empty file raises EmptyDataFile; a missing header "
+            "raises InvalidDataFile; the first non-blank row whose cell in the column is not a number raises InvalidDataFile naming file line (row index + 2); otherwise the "
+            "result is a 1-D masked array with one element per non-blank row, in row order (loop invariant over the filtered sequence), element m = the number written in the "
+            "m-th non-blank row converted to the requested element type (float by default), missing exactly where that value equals the declared missing value, independent of "
+            "every other column; the error classes can be constructed and printed; validate_array_shapes (called by EEMSWrite) meets its contract; EEMSWrite hands the "
+            "csv writer the result names in the listed order. Assumed: csv, open, float/repr, numpy. Bounded (B-CSV): reads of generated tables and bit-identical write->read "
+            "round trips on real files."),
     "netcdf": ("Proved: the error classes of the NetCDF library can be constructed and printed; validate_array_shapes meets its contract; insure_fuzzy (used for Fuzzy data) "
                "under C04. Assumed: netCDF4 and numpy. Bounded (B-NC): write->read round trips over shapes, element kinds, mask placements, several results written "
                "together, all read-parameter combinations, template dimension variables copied unchanged."),
 }
 
+I_ = z3.IntSort()
+Str = z3.StringSort()
+HASHDR = z3.Bool("csv_has_header_row")
+HLEN = z3.Int("csv_header_len")
+HEADER = z3.Function("csv_header", I_, Str)
+NROWS = z3.Int("csv_nrows")
+ROWLEN = z3.Function("csv_row_len", I_, I_)
+CELL = z3.Function("csv_cell", I_, I_, Str)
+CNT = z3.Function("nonblank_count", I_, I_)
+SRC = z3.Function("nonblank_source", I_, I_)
+POS = z3.Function("cell_position", Cell, I_)
+VEC = z3.Function("vector_shape", I_, Shape)
+IDX = z3.Int("column_index")  # specification: the first header position holding the field name
+CSVIO = "mpilot/libraries/eems/csv/io.py"
+
+
+def nonblank(k):
+    return ROWLEN(k) > 0
+
+
+def header_has(field):
+    return ("exists", lambda i: z3.And(i >= 0, i < HLEN, HEADER(i) == field))
+
+
+def file_axioms(st, field):
+    st.assume(z3.And(HLEN >= 0, NROWS >= 0, CNT(0) == 0))
+    # IDX: if the header holds the field name at all, IDX is its first position
+    st.assume_all_k(lambda i: z3.Implies(z3.And(i >= 0, i < HLEN, HEADER(i) == field),
+                                         z3.And(IDX >= 0, IDX <= i, IDX < HLEN, HEADER(IDX) == field)))
+    st.note_k(IDX)
+    k = z3.Int("ax_k")
+    st.assume(z3.ForAll([k], ROWLEN(k) >= 0))
+    # definition of the ghost count and of the source index of the m-th non-blank row
+    st.assume_all_k(lambda k: z3.Implies(k >= 0, z3.And(CNT(k + 1) == CNT(k) + z3.If(nonblank(k), 1, 0), CNT(k) >= 0, CNT(k) <= k,
+                                                       z3.Implies(nonblank(k), SRC(CNT(k)) == k))))
+    n = z3.Int("ax_n")
+    st.assume(z3.ForAll([n], RANK(VEC(n)) == 1))
+    # admissible input (the statement is silent about ragged files): a non-blank row has a cell under every header.
+    # (On a shorter row the real code raises IndexError, which Command.run wraps into UnexpectedError - C13.)
+    st.assume_all_k(lambda k: z3.Implies(z3.And(k >= 0, nonblank(k)), ROWLEN(k) >= HLEN))
+
+
+def floatcell(k, idx):
+    """the number written in cell idx of row k (meaningful when FLOATLIT)"""
+    from .dyn import STR2F
+
+    return STR2F(CELL(k, idx))
+
+
+def install(eng):
+    from .dyn import FLOATLIT
+
+    ModelMixin = Engine  # patches go on the engine class itself (they override every mixin)
+    if getattr(ModelMixin, "_csv_patch", False):
+        return
+
+    def bi_file_readlines(self, st, args, kw):
+        yield st, st.alloc(Obj(ClassV("Lines"), {}))
+
+    def bi_csv_reader(self, st, args, kw):
+        yield st, st.alloc(Obj(ClassV("CsvReader"), {"header_taken": False}))
+
+    def bi_next(self, st, args, kw):
+        r = args[0]
+        o = st.get(r) if isinstance(r, Ref) else None
+        if not (isinstance(o, Obj) and o.cls.name == "CsvReader") or o.fields.get("header_taken"):
+            raise Unsupported("next() of %r" % (r,))
+        for s1, has in self.branch(st, HASHDR):
+            if has:
+                s1.set(r, Obj(o.cls, dict(o.fields, header_taken=True)))
+                yield s1, s1.alloc(PyList(seq=SeqV(HLEN, lambda i: Sym("str", HEADER(i)), tag="csvheader")))
+            else:
+                yield self.raise_(s1, "StopIteration", "")
+
+    def bi_list_index(self, st, args, kw):
+        ref, x = args[0], args[1]
+        o = st.get(ref)
+        if o.items is not None or not self.is_str(x):
+            raise Unsupported("list.index on this list")
+        seq = o.seq
+        xt = self.str_term(x)
+        found = st.fork()
+        idx = smt.fresh("index", I_)
+        found.assume(z3.And(idx >= 0, idx < seq.n, self.str_term(seq.get(idx)) == xt))
+        found.assume_all_k(lambda i: z3.Implies(z3.And(i >= 0, i < idx), self.str_term(seq.get(i)) != xt))
+        found.note_k(idx)
+        if self.feasible(found):
+            yield found, Sym("num", z3.ToReal(idx), True)
+        missing = st.fork()
+        missing.assume_all_k(lambda i: z3.Implies(z3.And(i >= 0, i < seq.n), self.str_term(seq.get(i)) != xt))
+        if self.feasible(missing):
+            yield self.raise_(missing, "ValueError", "is not in list")
+
+    orig_as_sequence = ModelMixin.as_sequence
+
+    def as_sequence(self, st, v):
+        o = st.store.get(v.oid) if isinstance(v, Ref) else None
+        if isinstance(o, Obj) and o.cls.name == "CsvReader":
+            if not o.fields.get("header_taken"):
+                raise Unsupported("iteration of a csv reader whose header was not taken")
+            yield st, SeqV(NROWS, lambda k: SeqV(ROWLEN(k), lambda i, k=k: Sym("str", CELL(k, i)), tag="csvrow", meta={"row": k}), tag="csvrows")
+            return
+        for r in orig_as_sequence(self, st, v):
+            yield r
+
+    orig_truth = ModelMixin.truth
+
+    def truth(self, st, v):
+        if isinstance(v, SeqV):
+            yield st, v.n > 0
+            return
+        for r in orig_truth(self, st, v):
+            yield r
+
+    def ma_array_from_list(self, st, v, kw):
+        """numpy.ma.array(list of numbers, mask=False, dtype=..., fill_value=...): a 1-D masked array, element k = the k-th number converted to dtype"""
+        o = st.get(v)
+        seq = self.list_seq(o)
+        if set(kw) - {"mask", "dtype", "fill_value"} or kw.get("mask", False) is not False:
+            raise Unsupported("ma.array(list) keywords %s" % sorted(kw))
+        d = self.dtype_of_class(kw["dtype"]) if "dtype" in kw else FLT
+
+        def elem(c, seq=seq, d=d):
+            e = seq.get(POS(c))
+            if isinstance(e, Sym) and e.kind == "dyn":
+                t = Val.fval(e.t)
+            elif is_num(e):
+                t = num_term(e)
+            else:
+                raise Unsupported("ma.array of a list of %r" % (e,))
+            tr = z3.If(t >= 0, z3.ToReal(z3.ToInt(t)), -z3.ToReal(z3.ToInt(-t)))
+            return z3.If(d == INT, tr, t)
+
+        elem(z3.Const("probe_cell", Cell))  # fail early on unsupported elements
+        st.assume_all_cells(lambda c, n=seq.n: z3.And(POS(c) >= 0, POS(c) < n))
+        yield st, st.alloc(ArrState("MA", d, VEC(seq.n), elem, lambda c: z3.BoolVal(False)))
+
+    orig_call = ModelMixin.call
+
+    def call(self, st, f, args, kw, node=None):
+        if isinstance(f, Sym) and f.kind == "dt":
+            # calling a numeric type object (float or int) on a number: conversion, truncating toward zero for int
+            if len(args) != 1 or not is_num(args[0]):
+                raise Unsupported("data type called on %r" % (args,))
+            t = num_term(args[0])
+            tr = z3.If(t >= 0, z3.ToReal(z3.ToInt(t)), -z3.ToReal(z3.ToInt(-t)))
+            yield st, Sym("num", z3.If(f.t == INT, tr, t), f.t == INT)
+            return
+        for r in orig_call(self, st, f, args, kw, node):
+            yield r
+
+    ModelMixin.call = call
+
+    def bi_arr_soften_mask(self, st, args, kw):
+        yield st, args[0]
+
+    ModelMixin.bi_arr_soften_mask = bi_arr_soften_mask
+    ModelMixin.bi_file_readlines = bi_file_readlines
+    ModelMixin.bi_csv_reader = bi_csv_reader
+    ModelMixin.bi_next = bi_next
+    ModelMixin.bi_list_index = bi_list_index
+    ModelMixin.as_sequence = as_sequence
+    ModelMixin.truth = truth
+    ModelMixin.ma_array_from_list = ma_array_from_list
+    ModelMixin._csv_patch = True
+
+
+class ReadLoop(S.LoopContract):
+    """after j rows: `values` holds, in row order, the numbers of the non-blank rows among the first j; each of those rows had a numeric cell"""
+
+    def inv(self, I):
+        from .dyn import FLOATLIT
+
+        eng, st, j = I.eng, I.st, I.j
+        idx = IDX
+        for n in ("i", "row"):
+            I.covered.add(n)
+            if I.mode == "abstract" and n in st.env:
+                st.env.pop(n)
+        I.covered.add("values")
+        if I.mode == "abstract":
+            st.env["values"] = st.alloc(PyList(seq=SeqV(CNT(j), lambda m: Sym("dyn", Val.F(floatcell(SRC(m), idx))), tag="values")))
+            st.assume_all_k(lambda k: z3.Implies(z3.And(k >= 0, k < j, nonblank(k)), z3.And(FLOATLIT(CELL(k, idx)), idx < ROWLEN(k))))
+            return
+        o = st.get(st.env["values"])
+        seq = eng.list_seq(o)
+        I.fact("one value per non-blank row so far", seq.n == CNT(j))
+
+        def elem(m):
+            e = seq.get(m)
+            t = Val.fval(e.t) if isinstance(e, Sym) and e.kind == "dyn" else num_term(e)
+            return z3.Implies(z3.And(m >= 0, m < CNT(j)), t == floatcell(SRC(m), idx))
+
+        I.forall_k("value m is the number written in the m-th non-blank row", elem)
+        I.forall_k("every non-blank row so far had a numeric cell", lambda k: z3.Implies(z3.And(k >= 0, k < j, nonblank(k)), FLOATLIT(CELL(k, idx))))
+
+
+class CsvReadSpec(CommandSpec):
+    def requires(self, x):
+        return []
+
+    def raises(self, x):
+        from .dyn import FLOATLIT
+
+        field = x.strs["InFieldName"]
+        return [("EmptyDataFile", z3.Not(HASHDR)),
+                ("InvalidDataFile", ("and_not_exists_k", HASHDR, lambda i: z3.And(i >= 0, i < HLEN, HEADER(i) == field))),
+                ("InvalidDataFile", ("exists_k", lambda k: z3.And(HASHDR, IDX >= 0, IDX < HLEN, HEADER(IDX) == field, k >= 0, k < NROWS, nonblank(k),
+                                                                  z3.Not(FLOATLIT(CELL(k, IDX))))))]
+
+    def result(self, x):
+        eng = x.eng
+        idx = IDX
+        has_dt = x.present.get("DataType")
+        dt = z3.If(has_dt, x.strs["DataType"], FLT) if has_dt is not None else FLT
+        has_fill = x.present.get("MissingVal")
+        fill = x.nums["MissingVal"][0]
+        trunc = lambda t: z3.If(t >= 0, z3.ToReal(z3.ToInt(t)), -z3.ToReal(z3.ToInt(-t)))
+        conv = lambda t: z3.If(dt == INT, trunc(t), t)
+        val = lambda c: conv(floatcell(SRC(POS(c)), idx))
+        return dict(shape=VEC(CNT(NROWS)), dtype=dt, miss=lambda c: z3.And(has_fill, val(c) == conv(fill)), value=val)
+
+
+def verify_csv_read(repo):
+    from . import registry
+    from .dyn import FLOATLIT
+    from . import serprops
+
+    registry.load(repo)
+    eng = Engine(repo, dict(S.CONTRACTS), dict(S.LOOPS))
+    install(eng)
+    serprops.install(eng)  # str(int) = STR_I, exact str.format
+    eng.precise_format = True
+    eng.lx = {}
+    ci = repo.modules[CSVIO].classes["EEMSRead"]
+    fi = repo.find_method(ci, "execute")
+    loops = [n for n in ast.walk(fi.node) if isinstance(n, ast.For)]
+    eng.loop_contracts[(fi.key, "for", 0)] = ReadLoop()
+    spec = CsvReadSpec()
+
+    # the column index is whatever `headers.index` returned: remember it when the loop contract first needs it
+    orig_index = eng.bi_list_index
+
+    def list_index(st, args, kw):
+        for s1, r in orig_index(st, args, kw):
+            if isinstance(r, Sym):
+                eng.lx["idx"] = z3.ToInt(r.t)
+            yield s1, r
+
+    eng.builtin_models["list.index"] = list_index
+    eng.lx["idx"] = z3.Int("column_index")
+
+    # hook the initial state: file axioms; ragged rows are outside the property (admissible-input restriction)
+    from . import cmdspec
+
+    orig_build = cmdspec.build_inputs
+
+    def build(eng_, ci_, fuzzy_pre=True):
+        st, x = orig_build(eng_, ci_, fuzzy_pre)
+        x.eng = eng_
+        file_axioms(st, x.strs["InFieldName"])
+        return st, x
+
+    orig_exit = cmdspec.check_exit
+
+    def check_exit(eng_, spec_, x, st, out, label):
+        orig_exit(eng_, spec_, x, st, out, label)
+        if out[0] != "raise" or isinstance(out[1], (str,)) or not isinstance(out[1], Ref):
+            return
+        o = st.get(out[1])
+        prob = o.fields.get("problem")
+        if o.cls.name != "InvalidDataFile" or prob is None:
+            return
+        from .serprops import STR_I
+        field = x.strs["InFieldName"]
+        msg = lambda k: z3.Concat(z3.StringVal('The data file contains an invalid value in the field "'), field, z3.StringVal('" on line '), STR_I(k + 2), z3.StringVal("."))
+        k2 = st.add_k("k_first")
+        ks = st.all_kterms()
+        first = lambda k: z3.Implies(z3.And(k2 >= 0, k2 < k, nonblank(k2)), FLOATLIT(CELL(k2, IDX)))
+        if getattr(eng_, "debug_io", False):
+            print("PROBLEM", prob, [str(k) for k in ks])
+        bad_cell = z3.Or(*[z3.And(k >= 0, k < NROWS, nonblank(k), z3.Not(FLOATLIT(CELL(k, IDX))), first(k), eng_.str_term(prob) == msg(k)) for k in ks])
+        hdr_missing = z3.And(*[z3.Implies(z3.And(i >= 0, i < HLEN), HEADER(i) != field) for i in ks])
+        eng_.oblige(st, label + "/InvalidDataFile names the file line (row index + 2) of the first non-numeric cell, or the header is missing",
+                    z3.Or(bad_cell, hdr_missing), kind="raises", meta={"clause": "lineno"}, assume_after=False)
+
+    cmdspec.build_inputs = build
+    cmdspec.check_exit = check_exit
+    try:
+        recs = verify_execute(eng, ci, spec)
+    finally:
+        cmdspec.build_inputs = orig_build
+        cmdspec.check_exit = orig_exit
+    return [r for r in recs], [dict(fi.describe(), verified_for_class="EEMSRead (csv)")]
+
+
+# =========================================================================== CSV EEMSWrite
+VLEN = z3.Function("vector_length", Shape, I_)
+ROWAT = z3.Function("transposed_row", I_, I_, Val)  # row i of the transposed stack `sid`
+
+
+def install_writer(eng):
+    E = Engine
+    if getattr(E, "_csvw_patch", False):
+        return
+
+    def bi_csv_writer(self, st, args, kw):
+        f = args[0]
+        yield st, st.alloc(Obj(ClassV("CsvWriter"), {"file": f}))
+
+    orig_obj_attr = E.obj_attr
+
+    def obj_attr(self, st, ref, o, name):
+        if o.cls.name == "CsvWriter" and name in ("writerow", "writerows"):
+            yield st, BuiltinV("csvwriter." + name, self_val=ref)
+            return
+        if o.cls.name == "TransposedStack":
+            if name == "shape":
+                yield st, TupleV([Sym("num", z3.ToReal(o.fields["rows"]), True), Sym("num", z3.ToReal(o.fields["cols"]), True)])
+                return
+        for r in orig_obj_attr(self, st, ref, o, name):
+            yield r
+
+    def bi_csvwriter_writerow(self, st, args, kw):
+        st.log.append(("writerow", args[1]))
+        yield st, None
+
+    def bi_csvwriter_writerows(self, st, args, kw):
+        st.log.append(("writerows", args[1]))
+        yield st, None
+
+    orig_from_list = E.ma_array_from_list
+
+    def ma_array_from_list(self, st, v, kw):
+        o = st.get(v)
+        seq = self.list_seq(o)
+        probe = seq.get(smt.fresh("k", I_))
+        if isinstance(probe, Ref) or self.is_arr(st, probe):
+            if set(kw):
+                raise Unsupported("ma.array(list of arrays) keywords")
+            for s1, r in self.call_builtin("numpy.array", st, [v], {}):
+                if not isinstance(r, Raised):
+                    stk = s1.get(r)
+                    stk.kind = "MA"
+                yield s1, r
+            return
+        for r in orig_from_list(self, st, v, kw):
+            yield r
+
+    def bi_arr_transpose(self, st, args, kw):
+        from .values import StackState
+
+        stk = st.get(args[0]) if isinstance(args[0], Ref) else None
+        axes = st.get(args[1]).items if len(args) > 1 and isinstance(args[1], Ref) and isinstance(st.get(args[1]), PyList) else None
+        if not isinstance(stk, StackState) or axes != [1, 0]:
+            raise Unsupported("transpose of %r with %r" % (stk, axes))
+        # a stack of n one-dimensional layers of length L, transposed: L rows of n cells. (For layers of higher rank numpy raises.)
+        self.oblige(st, "%s/transpose([1, 0]):requires one-dimensional results" % self.current.key, RANK(stk.shape) == 1, kind="callsite-requires",
+                    meta={"clause": "shape"})
+        sid = smt.fresh("stack_id", I_)
+        yield st, st.alloc(Obj(ClassV("TransposedStack"), {"rows": VLEN(stk.shape), "cols": stk.n, "sid": sid, "stack": args[0]}))
+
+    orig_get_item = E.get_item
+
+    def get_item(self, st, o, idx):
+        c = st.store.get(o.oid) if isinstance(o, Ref) else None
+        if isinstance(c, Obj) and c.cls.name == "TransposedStack":
+            from .values import Slice
+
+            if isinstance(idx, TupleV) and len(idx.items) == 2 and isinstance(idx.items[1], Slice) and idx.items[1].lo is None and idx.items[1].hi is None:
+                i = self.int_term(idx.items[0])
+                yield st, Sym("dyn", ROWAT(c.fields["sid"], i))
+                return
+            raise Unsupported("index %r into a transposed stack" % (idx,))
+        for r in orig_get_item(self, st, o, idx):
+            yield r
+
+    E.bi_csv_writer = bi_csv_writer
+    E.obj_attr = obj_attr
+    E.bi_csvwriter_writerow = bi_csvwriter_writerow
+    E.bi_csvwriter_writerows = bi_csvwriter_writerows
+    E.ma_array_from_list = ma_array_from_list
+    E.bi_arr_transpose = bi_arr_transpose
+    E.bi_stack_transpose = bi_arr_transpose
+    E.get_item = get_item
+    E._csvw_patch = True
+
+
+class CsvWriteSpec(CommandSpec):
+    def raises(self, x):
+        n = x.n("OutFieldNames")
+        return [("EmptyInputs", n == 0),
+                ("MixedArrayShapes", ("exists_k", lambda k: z3.And(k >= 1, k < n, x.shape("OutFieldNames", k) != x.shape("OutFieldNames", z3.IntVal(0)))))]
+
+    def requires(self, x):
+        from .ma import RANK as _R
+
+        n = x.n("OutFieldNames")
+        # the statement (and the code: "Assumption: 1d arrays") speaks of columns: one-dimensional results
+        x.st0.assume_all_k(lambda k: z3.Implies(z3.And(k >= 0, k < n), _R(x.shape("OutFieldNames", k)) == 1))
+        return []
+
+    def result(self, x):
+        return None
+
+
+def verify_csv_write(repo):
+    from . import registry, cmdspec
+
+    registry.load(repo)
+    eng = Engine(repo, dict(S.CONTRACTS), dict(S.LOOPS))
+    install(eng)
+    install_writer(eng)
+    eng.lx = {}
+    ci = repo.modules[CSVIO].classes["EEMSWrite"]
+    fi = repo.find_method(ci, "execute")
+    spec = CsvWriteSpec()
+    orig_exit = cmdspec.check_exit
+
+    def check_exit(eng_, spec_, x, st, out, label):
+        orig_exit(eng_, spec_, x, st, out, label)
+        if out[0] == "raise":
+            return
+        m = {"clause": "header"}
+        hdr = [ev[1] for ev in st.log if ev[0] == "writerow"]
+        rows = [ev[1] for ev in st.log if ev[0] == "writerows"]
+        order = [ev[0] for ev in st.log if ev[0] in ("writerow", "writerows")]
+        eng_.oblige(st, label + "/one header row, written before the data rows", z3.BoolVal(order == ["writerow", "writerows"]), kind="ensures", meta=m, assume_after=False)
+        if len(hdr) == 1 and isinstance(hdr[0], Ref):
+            seq = eng_.list_seq(st.get(hdr[0]))
+            n = x.n("OutFieldNames")
+            k = st.add_k("k_hdr")
+            fam = st.fams[("cmds", "OutFieldNames")]
+            eng_.oblige(st, label + "/the header lists the result names in the listed order",
+                        z3.And(seq.n == n, z3.Implies(z3.And(k >= 0, k < n), eng_.str_term(seq.get(k)) == fam.namefun(k))), kind="ensures", meta=m, assume_after=False)
+        if len(rows) == 1 and isinstance(rows[0], Ref):
+            seq = eng_.list_seq(st.get(rows[0]))
+            i = st.add_k("i_row")
+            length = VLEN(x.shape("OutFieldNames", z3.IntVal(0)))
+            e = seq.get(i)
+            ok = isinstance(e, Sym) and e.kind == "dyn" and z3.is_app(e.t) and e.t.decl().eq(ROWAT)
+            eng_.oblige(st, label + "/one data row per cell, row i holding position i of every result",
+                        z3.And(seq.n == z3.If(length > 0, length, 0), z3.Implies(z3.And(i >= 0, i < seq.n), e.t.arg(1) == i)) if ok else z3.BoolVal(False),
+                        kind="ensures", meta={"clause": "rows"}, assume_after=False)
+
+    cmdspec.check_exit = check_exit
+    try:
+        recs = verify_execute(eng, ci, spec)
+    finally:
+        cmdspec.check_exit = orig_exit
+    return [r for r in recs], [dict(fi.describe(), verified_for_class="EEMSWrite (csv)")]
+
 
 def verify(repo, which):
-    return [], []
+    if which != "csv":
+        return [], []
+    out, fns = [], []
+    for f, label in ((verify_csv_read, "EEMSRead"), (verify_csv_write, "EEMSWrite")):
+        try:
+            r, fn = f(repo)
+            out += r
+            fns += fn
+        except Unsupported as e:
+            out.append({"name": "%s::%s.execute/supported" % (CSVIO, label), "status": "unknown", "backend": "engine", "time_s": 0, "clause": "supported",
+                        "function": "%s::%s.execute" % (CSVIO, label), "reason": "unsupported construct: %s" % e})
+    return out, fns
